@@ -459,6 +459,10 @@ def r17_4_epilogue(rep, facts):
     b, g, rows = table(facts, "protocol::body::make_request_epilogue", max_visits=3)
     good = 0
     iterated = 0
+    # written generically over `S: Into<EndRequest>`: fine as long as every caller passes an ExitStatus (its From impl is R17.2's table)
+    callers = F.calls_to(facts, lambda n: n == "protocol::body::make_request_epilogue")
+    generic_status_ok = bool(callers) and all(
+        any(str(a.get("s", "")).endswith("ExitStatus") for a in t_["func"].get("args", []) if isinstance(a, dict)) for (cb, cbi, t_, nm_) in callers)
     for r in rows:
         if r.end != 'return':
             continue
@@ -469,7 +473,8 @@ def r17_4_epilogue(rep, facts):
         last = ir.peel(ext[-1][1][1])
         okl = (last[0] == 'call' and last[1] == "protocol::body::EndRequest::to_record"
                and ir.peel(last[2][1])[0] == 'param'
-               and any(x[0] == 'call' and x[1] == "<protocol::body::EndRequest as std::convert::From>::from" and ir.peel(x[2][0])[0] == 'param' for x in ir.walk(last[2][0])))
+               and any(x[0] == 'call' and (x[1] == "<protocol::body::EndRequest as std::convert::From>::from" or (x[1].endswith("Into>::into") or x[1].endswith("Into::into")) and generic_status_ok)
+                       and ir.peel(x[2][0])[0] == 'param' for x in ir.walk(last[2][0])))
         okh = True
         for c in ext[:-1]:
             d = ir.peel(c[1][1])
